@@ -61,14 +61,20 @@ def run_guarded(mod, case, keep_log=False):
     if not getattr(mod, "HANG_WATCHDOG", False):
         return mod.run_case(case, keep_log=keep_log) if keep_log else mod.run_case(case)
 
+    fired = []
+
     def on_alarm(signum, frame):
+        fired.append(1)
         raise RunHang()
 
     old = signal.signal(signal.SIGALRM, on_alarm)
     signal.setitimer(signal.ITIMER_REAL, HANG_S)
     try:
         return mod.run_case(case, keep_log=keep_log) if keep_log else mod.run_case(case)
-    except RunHang:
+    except BaseException as e:  # noqa: BLE001
+        # (an event loop may wrap or replace the RunHang raised inside it: what counts is that the alarm fired)
+        if not fired and not isinstance(e, RunHang):
+            raise
         from .core import RunResult
 
         res = RunResult()
